@@ -373,6 +373,70 @@ theorem derivedCalls_agree {s : Schema} {rank : String → Nat} (wf : WF s rank)
   | some e =>
     rw [populateP_ctx wf rr r1 (fuelOf s) n [] (wf.bound n e hE), populate_ctx]
 
+/-! ## a simple class of schemas: no attribute name is declared twice -/
+
+/-- no two entities of the schema declare (not: redeclare) an attribute of the same name -/
+def DeclaredOnce (s : Schema) : Prop :=
+  ∀ c1 ∈ s.entities, ∀ c2 ∈ s.entities, ∀ b ∈ c1.attrs, b.redecl.isNone = true → declares c2 b.name = true → c1.name = c2.name
+
+instance (s : Schema) : Decidable (DeclaredOnce s) := by unfold DeclaredOnce; infer_instance
+
+theorem attrDeclarer_spec (s : Schema) (x : String) : ∀ (g : Nat) (c d : String), attrDeclarer s g c x = some d →
+    isSelfOrSuper s g c d = true ∧ ∃ e, s.findE d = some e ∧ declares e x = true := by
+  intro g
+  induction g with
+  | zero => intro c d h; simp [attrDeclarer] at h
+  | succ g ih =>
+    intro c d h
+    unfold attrDeclarer at h
+    cases hE : s.findE c with
+    | none => simp [hE] at h
+    | some e =>
+      simp only [hE] at h
+      by_cases hd : e.attrs.any (fun a => a.name == x && a.redecl.isNone) = true
+      · simp only [hd, if_true, Option.some.injEq] at h
+        subst h
+        exact ⟨by unfold isSelfOrSuper; simp, e, hE, hd⟩
+      · simp only [hd, Bool.false_eq_true, if_false] at h
+        obtain ⟨p, hp, hps⟩ := List.exists_of_findSome?_eq_some h
+        obtain ⟨i1, i2⟩ := ih p d hps
+        refine ⟨?_, i2⟩
+        unfold isSelfOrSuper
+        simp only [hE, Bool.or_eq_true]
+        exact Or.inr (List.any_eq_true.2 ⟨p, hp, i1⟩)
+
+theorem declares_iff (c : Entity) (x : String) : declares c x = true ↔ ∃ b ∈ c.attrs, b.name = x ∧ b.redecl.isNone = true := by
+  unfold declares
+  simp only [List.any_eq_true, Bool.and_eq_true, beq_iff_eq]
+
+/-- with every attribute name declared once, a redeclared name is declared in one line -/
+theorem oneLine_of_declaredOnce {s : Schema} (rr : RedeclResolves s) (d1 : DeclaredOnce s) : RedeclNamesOneLine s := by
+  intro e he a ha sup hsup c hc hcd
+  obtain ⟨_, h2⟩ := rr e he a ha sup hsup
+  obtain ⟨d, hd⟩ := Option.isSome_iff_exists.1 h2
+  obtain ⟨i1, e', hE', hde'⟩ := attrDeclarer_spec s a.name (fuelOf s) sup d hd
+  obtain ⟨b, hb, hbn, hbr⟩ := (declares_iff c a.name).1 hcd
+  have := d1 c hc e' (findE_mem hE') b hb hbr (by rw [hbn]; exact hde')
+  rw [this, findE_name hE']
+  exact i1
+
+/-- … and in every entity's list a name has one creator -/
+theorem keyByName_of_declaredOnce {s : Schema} {rank : String → Nat} (wf : WF s rank) (rr : RedeclResolves s) (d1 : DeclaredOnce s)
+    (n : String) : KeyByName (seg s (fuelOf s) n) := by
+  intro a ha b hb hab
+  cases hE : s.findE n with
+  | none =>
+    have hf : fuelOf s = (fuelOf s - 1) + 1 := by unfold fuelOf; omega
+    rw [hf, seg_succ, hE] at ha
+    simp at ha
+  | some e =>
+    have hall := seg_allDecl wf rr (fuelOf s) n (wf.bound n e hE)
+    obtain ⟨ca, hca, hcan, hcad⟩ := hall a ha
+    obtain ⟨cb, hcb, hcbn, hcbd⟩ := hall b hb
+    obtain ⟨x, hx, hxn, hxr⟩ := (declares_iff ca a.name).1 hcad
+    have := d1 ca hca cb hcb x hx hxr (by rw [hxn, hab]; exact hcbd)
+    rw [← hcan, ← hcbn, this]
+
 /-- both conditions are decidable and hold on the plain shapes: `b SUBTYPE OF (a)` redeclaring `a.x` in its DERIVE clause and
     `d SUBTYPE OF (b)` redeclaring it again -/
 example : let s : Schema :=
@@ -381,7 +445,7 @@ example : let s : Schema :=
                                    attrs := [{ name := "x", redecl := some "a", kind := .derived, type := .base .integer }] },
                                  { name := "d", supers := ["b"],
                                    attrs := [{ name := "x", redecl := some "a", type := .base .integer }] }] }
-    RedeclResolves s ∧ RedeclNamesOneLine s := by
+    RedeclResolves s ∧ RedeclNamesOneLine s ∧ DeclaredOnce s := by
   decide
 
 /-- … and fail on the excluded shape: `x` declared by `p` and by `q`, `w` below both redeclaring `SELF\\q.x` -/
